@@ -19,7 +19,9 @@ Proof.
   { apply run_one. simpl. rewrite E. reflexivity. }
   destruct acc; simpl.
   - exists [LCreate h (hctx sh tb c)]. congruence.
-  - exists ([LCreate h (hctx sh tb c)] ++ [LFailCtx (tb_par tb)]). rewrite run_app, E1. reflexivity.
+  - destruct (early sh); simpl.
+    + exists ([LCreate h (hctx sh tb c)] ++ [LFailCtx (tb_par tb)]). rewrite run_app, E1. reflexivity.
+    + exists [LCreate h (hctx sh tb c)]. congruence.
 Qed.
 
 Lemma try_step_labels sh tb t t' :
@@ -45,10 +47,12 @@ Proof.
     + exists []; reflexivity.
     + apply submit_handler_labels.
     + exists []; reflexivity.
-  - intro H; inversion H; exists []; reflexivity.
+  - destruct (pend t && negb (early sh)); intro H; inversion H; simpl rs.
+    + exists [LFailCtx (tb_par tb)]. reflexivity.
+    + exists []. reflexivity.
   - destruct (find_task hn (tasks (rs t))) as [x|]; [|intro HH; discriminate HH].
     destruct (is_finished (t_st x)); [|intro HH; discriminate HH].
-    destruct (ctx_failed hc (rs t)); intro H; inversion H; simpl rs.
+    destruct (ctx_failed hc (rs t) && early sh); intro H; inversion H; simpl rs.
     + exists [LFailCtx (tb_par tb)]. reflexivity.
     + exists []. reflexivity.
   - intro HH; discriminate HH.
@@ -482,20 +486,32 @@ Definition stage (p : tpc) : nat :=
   match p with TStart => 0 | TWaitBody => 1 | TFinally _ => 2 | TFail _ => 3 | TSuccess _ => 4
           | TCollect _ => 5 | TDone => 5 end.
 
+(** [hn] is registered and has finished. *)
+Definition finp (s : state) (hn : name) : Prop := exists x ok, T s hn x /\ t_st x = Finished ok.
+
+Definition hfailed (tb : tryblock) (s : state) : Prop :=
+  exists h c, In (h, c) (hpairs tb) /\ registered (s_name h) (tasks s) = true /\ ctx_failed c s = true.
+
 Record TI (tb : tryblock) (t : tstate) : Prop := {
   ti_ri : RI tb (catched t) (rs t);
   ti_pc : match pc t with
           | TStart | TWaitBody => catched t = None
           | TFinally c | TFail c | TSuccess c => catched t = Some c
           | _ => True end;
-  ti_rej : rejected_any tb (rs t) -> ctx_failed (tb_par tb) (rs t) = true;
+  ti_pend : pend t = true -> (exists r, pc t = TCollect r) \/ ctx_failed (tb_par tb) (rs t) = true;
+  ti_rej : rejected_any tb (rs t) -> pend t = true \/ ctx_failed (tb_par tb) (rs t) = true;
+  ti_pendsrc : pend t = true -> rejected_any tb (rs t) \/ hfailed tb (rs t);
   ti_par : ctx_failed (tb_par tb) (rs t) = true ->
-           rejected_any tb (rs t) \/
-           exists h c, In (h, c) (hpairs tb) /\ registered (s_name h) (tasks (rs t)) = true
-                       /\ ctx_failed c (rs t) = true;
+           pc t = TDone /\ (rejected_any tb (rs t) \/ hfailed tb (rs t));
   ti_subd : forall hn hc, In (hn, hc) (subd t) ->
             exists h, In (h, hc) (hpairs tb) /\ hn = s_name h /\ registered hn (tasks (rs t)) = true;
-  ti_col : match pc t with TCollect r => incl r (subd t) | _ => True end;
+  ti_regsub : forall h c, In (h, c) (hpairs tb) -> registered (s_name h) (tasks (rs t)) = true ->
+              In (s_name h, c) (subd t);
+  ti_col : match pc t with
+           | TStart | TWaitBody => subd t = []
+           | TCollect r => incl r (subd t) /\ forall p, In p (subd t) -> In p r \/ finp (rs t) (fst p)
+           | TDone => forall p, In p (subd t) -> finp (rs t) (fst p)
+           | _ => True end;
   ti_prog : forall c, catched t = Some c ->
             rejected_any tb (rs t) \/
             ((2 < stage (pc t) -> Pk (tb_finally tb) true (rs t)) /\
@@ -515,21 +531,43 @@ Lemma rejected_any_mono tb s s' :
   (forall e, In e (log s) -> In e (log s')) -> rejected_any tb s -> rejected_any tb s'.
 Proof. intros H [h [A B]]. exists h. auto. Qed.
 
+Lemma hfailed_mono tb s s' :
+  (forall m, registered m (tasks s) = true -> registered m (tasks s') = true) -> fmono s s' ->
+  hfailed tb s -> hfailed tb s'.
+Proof. intros Hr Hf (h & c & A & B & C). exists h, c. auto. Qed.
+
+Lemma finp_stable s s' hn :
+  Inv s -> Inv s' -> (forall e, In e (log s) -> In e (log s')) -> finp s hn -> finp s' hn.
+Proof.
+  intros HI HI' Hincl (x & ok & HT & Hst).
+  pose proof (inv_tasks _ HI _ _ HT) as [_ Hti]. rewrite Hst in Hti. destruct Hti as [Hin _].
+  destruct (inv_fin _ HI' _ _ (Hincl _ Hin)) as [tu [A B]]. exists tu, ok. auto.
+Qed.
+
 (** Runner steps preserve the whole invariant. *)
 Lemma TI_runner tb t s' :
   wf tb -> TI tb t -> runner_step (rs t) s' -> TI tb (with_rs s' t).
 Proof.
   intros W HI Hstep.
   destruct (RI_runner _ _ _ _ W (ti_ri _ _ HI) Hstep) as (R1 & Hincl & Hrej & Hreg & Hregb & Hfm & Hpar).
+  destruct (RI_Inv _ _ _ (ti_ri _ _ HI)) as [HInv _]. destruct (RI_Inv _ _ _ R1) as [HInv' _].
+  assert (Hfin : forall hn, finp (rs t) hn -> finp s' hn) by (intros hn; apply finp_stable; assumption).
   split; simpl.
   - assumption.
   - apply (ti_pc _ _ HI).
-  - intro R. apply Hfm. apply (ti_rej _ _ HI). auto.
-  - intro Hc. destruct (ti_par _ _ HI (Hpar Hc)) as [R|(h & c & A & B & C)].
+  - intro Hp. destruct (ti_pend _ _ HI Hp); auto.
+  - intro R. destruct (ti_rej _ _ HI (Hrej R)); auto.
+  - intro Hp. destruct (ti_pendsrc _ _ HI Hp) as [R|Hh].
     + left. eapply rejected_any_mono; eauto.
-    + right. exists h, c. auto.
+    + right. eapply hfailed_mono; eauto.
+  - intro Hc. destruct (ti_par _ _ HI (Hpar Hc)) as [A [R|Hh]]; split; auto.
+    + left. eapply rejected_any_mono; eauto.
+    + right. eapply hfailed_mono; eauto.
   - intros hn hc Hin. destruct (ti_subd _ _ HI _ _ Hin) as [h (A & B & C)]. exists h. auto.
-  - apply (ti_col _ _ HI).
+  - intros h c Hh Hr. apply (ti_regsub _ _ HI h c Hh). apply Hregb; [assumption|].
+    apply handler_in_top. eapply hpairs_handler; eauto.
+  - pose proof (ti_col _ _ HI) as Hcol. destruct (pc t); auto.
+    destruct Hcol as [A B]. split; [assumption|]. intros p Hp. destruct (B p Hp); auto.
   - intros c Hc. destruct (ti_prog _ _ HI c Hc) as [R|(P1 & P2 & P3)].
     + left. eapply rejected_any_mono; eauto.
     + right. unfold Pk in *. repeat split; intros Hs h Hh Hg; apply Hreg; eauto.
@@ -555,25 +593,29 @@ Proof.
   pose proof (G _ (h, c) (h', c') N' H1 H2 E) as X. inversion X. auto.
 Qed.
 
+Lemma finp_create sb c p s hn : finp s hn -> finp (fst (create false sb c p s)) hn.
+Proof. intros (x & ok & A & B). exists x, ok. split; [apply T_after_create; assumption | assumption]. Qed.
+
+(** Submission of a handler by the goroutine (current code). *)
 Lemma TI_submit tb t h cx c0 next :
   wf tb -> TI tb t -> catched t = Some c0 -> In (h, cx) (hpairs tb) ->
-  In (s_name h) (allowed tb (Some c0)) ->
-  let t' := submit_handler false tb h cx next t in
+  In (s_name h) (allowed tb (Some c0)) -> ctx_failed (tb_par tb) (rs t) = false -> pend t = false ->
+  let t' := submit_handler MFixed tb h cx next t in
   RI tb (Some c0) (rs t') /\ catched t' = Some c0
-  /\ (rejected_any tb (rs t') -> ctx_failed (tb_par tb) (rs t') = true)
-  /\ (ctx_failed (tb_par tb) (rs t') = true ->
-      rejected_any tb (rs t') \/
-      exists h0 c, In (h0, c) (hpairs tb) /\ registered (s_name h0) (tasks (rs t')) = true /\ ctx_failed c (rs t') = true)
+  /\ ctx_failed (tb_par tb) (rs t') = false
   /\ (forall hn hc, In (hn, hc) (subd t') ->
       exists h0, In (h0, hc) (hpairs tb) /\ hn = s_name h0 /\ registered hn (tasks (rs t')) = true)
+  /\ (forall h0 c, In (h0, c) (hpairs tb) -> registered (s_name h0) (tasks (rs t')) = true -> In (s_name h0, c) (subd t'))
   /\ (forall e, In e (log (rs t)) -> In e (log (rs t')))
   /\ (forall m, registered m (tasks (rs t)) = true -> registered m (tasks (rs t')) = true)
-  /\ ((pc t' = next (subd t') /\ registered (s_name h) (tasks (rs t')) = true
+  /\ (forall hn, finp (rs t) hn -> finp (rs t') hn)
+  /\ ((pc t' = next (subd t') /\ pend t' = false /\ registered (s_name h) (tasks (rs t')) = true
        /\ (rejected_any tb (rs t') -> rejected_any tb (rs t)))
-      \/ (pc t' = TCollect (subd t) /\ subd t' = subd t /\ rejected_any tb (rs t'))).
+      \/ (pc t' = TCollect (subd t) /\ subd t' = subd t /\ pend t' = true /\ rejected_any tb (rs t'))).
 Proof.
-  intros W HI Hc Hh Hal t'. unfold t', submit_handler. simpl hctx.
-  destruct (create false h cx None (rs t)) as [s1 acc] eqn:Ecr.
+  intros W HI Hc Hh Hal Hnp Hpd t'. unfold t', submit_handler. simpl hctx. simpl early. cbv iota.
+  pose proof (finp_create h cx None (rs t)) as Hfinp.
+  destruct (create false h cx None (rs t)) as [s1 acc] eqn:Ecr. simpl in Hfinp.
   assert (HR : RI tb (Some c0) (rs t)) by (rewrite <- Hc; apply (ti_ri _ _ HI)).
   assert (Hhand : In h (handlers tb)) by (eapply hpairs_handler; eauto).
   destruct (RI_create tb (Some c0) (rs t) h cx s1 acc W HR Ecr) as (R1 & Hlog & Hreg & Hacc & Hregb & Hcf).
@@ -589,26 +631,24 @@ Proof.
   - (* accepted *)
     assert (Hrejb : rejected_any tb s1 -> rejected_any tb (rs t)).
     { intros [h' [A B]]. rewrite Hlog in B. destruct B as [B|B]; [discriminate|]. exists h'. auto. }
-    split; [assumption|]. split; [assumption|]. split; [|split; [|split; [|split; [assumption|split; [assumption|]]]]].
-    + intro R. unfold ctx_failed in *. rewrite Hcf. apply (ti_rej _ _ HI). auto.
-    + intro Hp. rewrite Hcf in Hp. destruct (ti_par _ _ HI Hp) as [R|(h0 & c & A & B & C)].
-      * left. eapply rejected_any_mono; eauto.
-      * right. exists h0, c. rewrite Hcf. auto.
+    split; [assumption|]. split; [assumption|]. split; [rewrite Hcf; assumption|].
+    split; [|split; [|split; [assumption|split; [assumption|split; [assumption|]]]]].
     + intros hn hc Hin. apply in_app_or in Hin as [Hin|[Hin|[]]].
       * destruct (ti_subd _ _ HI _ _ Hin) as [h0 (A & B & C)]. exists h0. auto.
       * inversion Hin; subst. exists h. auto.
+    + intros h0 c Hh0 Hr. apply in_or_app. destruct (Hregb _ Hr) as [Hr'|E].
+      * left. apply (ti_regsub _ _ HI); assumption.
+      * right. destruct (hpairs_unique _ _ _ _ _ W Hh0 Hh E) as [-> ->]. left. reflexivity.
     + left. auto.
   - (* rejected *)
-    assert (Rj : rejected_any tb (fail_ctx (tb_par tb) s1)).
-    { exists h. split; [assumption|]. rewrite fail_ctx_log, Hlog. left. reflexivity. }
-    split; [apply RI_failpar; assumption|]. split; [assumption|].
-    split; [|split; [|split; [|split; [|split]]]].
-    + intros _. apply ctx_failed_fail_same.
-    + intros _. left. assumption.
-    + intros hn hc Hin. destruct (ti_subd _ _ HI _ _ Hin) as [h0 (A & B & C)]. exists h0.
-      rewrite fail_ctx_tasks. auto.
-    + intros e He. rewrite fail_ctx_log. auto.
-    + intros m Hm. rewrite fail_ctx_tasks. auto.
+    assert (Et : tasks s1 = tasks (rs t)).
+    { destruct (create_false_cases h cx None (rs t)) as [E0|(R & V & E0)]; rewrite E0 in Ecr; inversion Ecr; reflexivity. }
+    assert (Rj : rejected_any tb s1).
+    { exists h. split; [assumption|]. rewrite Hlog. left. reflexivity. }
+    split; [assumption|]. split; [assumption|]. split; [rewrite Hcf; assumption|].
+    split; [|split; [|split; [assumption|split; [assumption|split; [assumption|]]]]].
+    + intros hn hc Hin. destruct (ti_subd _ _ HI _ _ Hin) as [h0 (A & B & C)]. exists h0. rewrite Et. auto.
+    + intros h0 c Hh0 Hr. rewrite Et in Hr. apply (ti_regsub _ _ HI); assumption.
     + right. auto.
 Qed.
 
@@ -623,44 +663,119 @@ Proof. intro E. unfold hpairs. rewrite E. apply in_or_app. right. apply in_or_ap
 Lemma in_hpairs_succ tb h : tb_success tb = Some h -> In (h, tb_csucc tb) (hpairs tb).
 Proof. intro E. unfold hpairs. rewrite E. apply in_or_app. right. apply in_or_app. right. left. reflexivity. Qed.
 
-Lemma TI_try tb t t' : wf tb -> TI tb t -> try_step false tb t = Some t' -> TI tb t'.
+Lemma TI_healthy tb t : TI tb t -> pc t <> TDone -> ctx_failed (tb_par tb) (rs t) = false.
+Proof.
+  intros HI Hp. destruct (ctx_failed (tb_par tb) (rs t)) eqn:E; [|reflexivity].
+  destruct (ti_par _ _ HI E) as [A _]. contradiction.
+Qed.
+
+Lemma TI_nopend tb t :
+  TI tb t -> pc t <> TDone -> (forall r, pc t <> TCollect r) -> pend t = false.
+Proof.
+  intros HI Hp Hc. destruct (pend t) eqn:E; [|reflexivity].
+  destruct (ti_pend _ _ HI E) as [[r A]|A]; [exfalso; eapply Hc; eauto|].
+  rewrite (TI_healthy _ _ HI Hp) in A. discriminate.
+Qed.
+
+(** Assembling the invariant after a handler submission. *)
+Lemma TI_after_submit tb t h cx c0 next :
+  wf tb -> TI tb t -> catched t = Some c0 -> In (h, cx) (hpairs tb) ->
+  In (s_name h) (allowed tb (Some c0)) -> pc t <> TDone -> (forall r, pc t <> TCollect r) ->
+  (forall l, match next l with TFail c | TSuccess c => c = c0 | TCollect r => r = l | _ => False end) ->
+  (* progress obligations of the new stage, given monotonicity and the registration of h *)
+  (forall t', (forall m, registered m (tasks (rs t)) = true -> registered m (tasks (rs t')) = true) ->
+              registered (s_name h) (tasks (rs t')) = true -> pc t' = next (subd t') ->
+              (rejected_any tb (rs t) \/
+               ((2 < stage (pc t') -> Pk (tb_finally tb) true (rs t')) /\
+                (3 < stage (pc t') -> Pk (tb_fail tb) c0 (rs t')) /\
+                (4 < stage (pc t') -> Pk (tb_success tb) (negb c0) (rs t'))))) ->
+  TI tb (submit_handler MFixed tb h cx next t).
+Proof.
+  intros W HI Hc Hh Hal Hnd Hnc Hnext Hprog.
+  pose proof (TI_healthy _ _ HI Hnd) as Hnp. pose proof (TI_nopend _ _ HI Hnd Hnc) as Hpd.
+  destruct (TI_submit tb t h cx c0 next W HI Hc Hh Hal Hnp Hpd)
+    as (R1 & Hc' & Hnp' & Hsub & Hregsub & Hincl & Hreg & Hfin & Hcase).
+  set (t' := submit_handler MFixed tb h cx next t) in *.
+  assert (Hnorej : rejected_any tb (rs t) -> False).
+  { intro R. destruct (ti_rej _ _ HI R) as [A|A]; congruence. }
+  split.
+  - rewrite Hc'. assumption.
+  - destruct Hcase as [(Ep & _)|(Ep & _)]; rewrite Ep; [|exact I].
+    specialize (Hnext (subd t')). destruct (next (subd t')); try contradiction; subst; auto.
+  - intro Hp. destruct Hcase as [(_ & Ep & _)|(Ep & _)]; [congruence | left; eauto].
+  - intro R. destruct Hcase as [(_ & _ & _ & Hb)|(_ & _ & Ep & _)]; [exfalso; auto | left; assumption].
+  - intro Hp. destruct Hcase as [(_ & Ep & _)|(_ & _ & _ & Rj)]; [congruence | left; assumption].
+  - intro Hp. congruence.
+  - assumption.
+  - assumption.
+  - destruct Hcase as [(Ep & _)|(Ep & Es & _)]; rewrite Ep.
+    + specialize (Hnext (subd t')). destruct (next (subd t')); try contradiction; auto.
+      subst. split; [apply incl_refl | auto].
+    + rewrite Es. split; [apply incl_refl | auto].
+  - intros c Hcc. rewrite Hc' in Hcc. inversion Hcc; subst c.
+    destruct Hcase as [(Ep & _ & Hr & _)|(_ & _ & _ & Rj)]; [|left; assumption].
+    destruct (Hprog t' Hreg Hr Ep) as [R|P]; [exfalso; auto | right; assumption].
+Qed.
+
+Lemma TI_goto tb t p :
+  TI tb t ->
+  match p with TFail c | TSuccess c => catched t = Some c | TCollect r => r = subd t | _ => False end ->
+  (forall c, catched t = Some c ->
+     rejected_any tb (rs t) \/
+     ((2 < stage p -> Pk (tb_finally tb) true (rs t)) /\
+      (3 < stage p -> Pk (tb_fail tb) c (rs t)) /\
+      (4 < stage p -> Pk (tb_success tb) (negb c) (rs t)))) ->
+  (pend t = true -> ctx_failed (tb_par tb) (rs t) = true \/ exists r, p = TCollect r) ->
+  pc t <> TDone ->
+  TI tb (goto p t).
+Proof.
+  intros HI Hp Hprog Hpend Hnd. split; simpl; try apply HI.
+  - destruct p; try contradiction; auto.
+  - intro E. destruct (Hpend E) as [A|[r A]]; [auto | left; eauto].
+  - intro E. destruct (ti_par _ _ HI E) as [A _]. contradiction.
+  - destruct p; try contradiction; auto. subst. split; [apply incl_refl | auto].
+  - assumption.
+Qed.
+
+Lemma TI_try tb t t' : wf tb -> TI tb t -> try_step MFixed tb t = Some t' -> TI tb t'.
 Proof.
   intros W HI. pose proof (ti_pc _ _ HI) as Hpc. unfold try_step.
   destruct (pc t) as [| | c | c | c | [|[hn hc] rest] |] eqn:Epc.
   - (* TStart *)
-    destruct (ctx_failed (tb_par tb) (rs t)) eqn:Ef.
-    + intro H; inversion H; subst t'; clear H. split; simpl.
-      * rewrite <- Hpc. apply (ti_ri _ _ HI).
-      * exact I.
-      * apply (ti_rej _ _ HI).
-      * apply (ti_par _ _ HI).
-      * intros ? ? [].
-      * exact I.
-      * intros c H. discriminate.
-    + destruct (create false (tb_body tb) (tb_sep tb) None (rs t)) as [s1 acc] eqn:Ecr.
-      assert (HR : RI tb None (rs t)) by (rewrite <- Hpc; apply (ti_ri _ _ HI)).
-      destruct (RI_create tb None (rs t) (tb_body tb) (tb_sep tb) s1 acc W HR Ecr) as (R1 & Hlog & Hreg & Hacc & Hregb & Hcf).
-      { left. reflexivity. }
-      { left. reflexivity. }
-      { unfold SN. apply incl_appl. apply incl_refl. }
-      { apply (wf_ctx _ W). }
-      { reflexivity. }
-      { intros h c' Hh E. exfalso. eapply (handler_not_nb tb h W); [eapply hpairs_handler; eauto | symmetry; exact E]. }
-      assert (Hrejb : rejected_any tb s1 -> rejected_any tb (rs t)).
-      { intros [h' [A B]]. rewrite Hlog in B. destruct B as [B|B]; [|exists h'; auto].
-        inversion B. exfalso. eapply (handler_not_nb tb h' W); eauto. }
-      assert (G : forall p hd, TI tb (mk s1 p hd None [] []) \/ True) by (intros; right; exact I).
-      assert (Gen : forall p hd, match p with TStart | TWaitBody | TDone => True | _ => False end ->
-                                 TI tb (mk s1 p hd None [] [])).
-      { intros p hd Hp. split; simpl.
-        - assumption.
-        - destruct p; try contradiction; auto.
-        - intro R. rewrite Hcf. apply (ti_rej _ _ HI). auto.
-        - intro Hp'. rewrite Hcf in Hp'. rewrite Ef in Hp'. discriminate.
-        - intros ? ? [].
-        - destruct p; try contradiction; auto.
-        - intros c H. discriminate. }
-      destruct acc; intro H; inversion H; apply Gen; exact I.
+    assert (Hnp : ctx_failed (tb_par tb) (rs t) = false) by (apply (TI_healthy _ _ HI); rewrite Epc; discriminate).
+    assert (Hpd : pend t = false) by (apply (TI_nopend _ _ HI); rewrite Epc; intros; discriminate).
+    pose proof (ti_col _ _ HI) as Hsub0. rewrite Epc in Hsub0.
+    rewrite Hnp.
+    pose proof (fun hn => finp_create (tb_body tb) (tb_sep tb) None (rs t) hn) as Hfinp.
+    destruct (create false (tb_body tb) (tb_sep tb) None (rs t)) as [s1 acc] eqn:Ecr. simpl in Hfinp.
+    assert (HR : RI tb None (rs t)) by (rewrite <- Hpc; apply (ti_ri _ _ HI)).
+    destruct (RI_create tb None (rs t) (tb_body tb) (tb_sep tb) s1 acc W HR Ecr) as (R1 & Hlog & Hreg & Hacc & Hregb & Hcf).
+    { left. reflexivity. }
+    { left. reflexivity. }
+    { unfold SN. apply incl_appl. apply incl_refl. }
+    { apply (wf_ctx _ W). }
+    { reflexivity. }
+    { intros h c' Hh E. exfalso. eapply (handler_not_nb tb h W); [eapply hpairs_handler; eauto | symmetry; exact E]. }
+    assert (Hrejb : rejected_any tb s1 -> False).
+    { intros [h' [A B]]. rewrite Hlog in B. destruct B as [B|B].
+      - inversion B. eapply (handler_not_nb tb h' W); eauto.
+      - destruct (ti_rej _ _ HI (ex_intro _ h' (conj A B))); congruence. }
+    assert (Gen : forall p hd, match p with TWaitBody | TDone => True | _ => False end ->
+                               TI tb (mk s1 p hd None (subd t) (coll t) (pend t))).
+    { intros p hd Hp. split; simpl.
+      - assumption.
+      - destruct p; try contradiction; auto.
+      - congruence.
+      - intro R. exfalso. auto.
+      - congruence.
+      - intro E. rewrite Hcf in E. congruence.
+      - rewrite Hsub0. intros ? ? [].
+      - intros h c Hh Hr. exfalso. destruct (Hregb _ Hr) as [Hr'|E].
+        + pose proof (ti_regsub _ _ HI h c Hh Hr') as X. rewrite Hsub0 in X. exact X.
+        + eapply (handler_not_nb tb h W); [eapply hpairs_handler; eauto | exact E].
+      - destruct p; try contradiction; auto. rewrite Hsub0. intros ? [].
+      - intros c H. discriminate. }
+    destruct acc; intro H; inversion H; apply Gen; exact I.
   - (* TWaitBody *)
     destruct (find_task (s_name (tb_body tb)) (tasks (rs t))) as [b|] eqn:Eb; [|intro HH; discriminate HH].
     destruct (is_finished (t_st b)) eqn:Efin; [|intro HH; discriminate HH].
@@ -670,126 +785,135 @@ Proof.
     assert (Hf : exists ok, In (EFinished (nb tb) ok) (log (rs t))).
     { pose proof (inv_tasks _ HInv _ _ Eb) as [_ Hti]. destruct (t_st b); try discriminate.
       exists ok. apply Hti. }
-    split; simpl.
+    assert (Hpd : pend t = false) by (apply (TI_nopend _ _ HI); rewrite Epc; intros; discriminate).
+    split; simpl; try apply HI.
     + apply RI_weaken; assumption.
     + reflexivity.
-    + apply (ti_rej _ _ HI).
-    + apply (ti_par _ _ HI).
-    + apply (ti_subd _ _ HI).
+    + congruence.
+    + intro E. destruct (ti_par _ _ HI E) as [A _]. congruence.
     + exact I.
     + intros c Hc. right. repeat split; intro Hs; simpl in Hs; lia.
   - (* TFinally *)
     destruct (tb_finally tb) as [h|] eqn:Eh; intro H; inversion H; subst t'; clear H.
-    + destruct (TI_submit tb t h (tb_cfin tb) c (fun _ => TFail c) W HI Hpc (in_hpairs_fin _ _ Eh))
-        as (R1 & Hc & Hrej & Hpar & Hsub & Hincl & Hreg & Hcase).
-      { simpl. rewrite Eh. right. left. reflexivity. }
-      split; try assumption.
-      * rewrite Hc. assumption.
-      * destruct Hcase as [(Ep & _)|(Ep & _)]; rewrite Ep; [assumption | exact I].
-      * destruct Hcase as [(Ep & _)|(Ep & Es & _)]; rewrite Ep; [exact I | rewrite Es; apply incl_refl].
-      * intros c' Hc'. destruct Hcase as [(Ep & Hr & _)|(Ep & _ & Rj)]; [right|left; assumption].
-        rewrite Ep. simpl. repeat split; intro Hs; try lia.
+    + apply (TI_after_submit tb t h (tb_cfin tb) c (fun _ => TFail c) W HI Hpc (in_hpairs_fin _ _ Eh)).
+      * simpl. rewrite Eh. right. left. reflexivity.
+      * rewrite Epc; discriminate.
+      * rewrite Epc; intros; discriminate.
+      * intros l. reflexivity.
+      * intros t' Hreg Hr Ep. right. rewrite Ep. simpl. repeat split; intro Hs; try lia.
         intros h' Hh' _. rewrite Eh in Hh'. inversion Hh'; subst. assumption.
-    + split; simpl; try apply HI.
-      * assumption.
-      * exact I.
-      * intros c' Hc'. right. repeat split; intro Hs; try lia. intros h' Hh'. rewrite Eh in Hh'. discriminate Hh'.
+    + apply TI_goto; auto.
+      * intros c' Hc'. right. simpl. repeat split; intro Hs; try lia. intros h' Hh'. rewrite Eh in Hh'. discriminate Hh'.
+      * intro E. rewrite (TI_nopend _ _ HI) in E; [discriminate | rewrite Epc; discriminate | rewrite Epc; intros; discriminate].
+      * rewrite Epc; discriminate.
   - (* TFail *)
     assert (Hold : forall c', catched t = Some c' -> rejected_any tb (rs t) \/ Pk (tb_finally tb) true (rs t)).
     { intros c' Hc'. destruct (ti_prog _ _ HI c' Hc') as [R|(P1 & _)]; [auto|]. right. apply P1. rewrite Epc. simpl. lia. }
+    assert (Hnd : pc t <> TDone) by (rewrite Epc; discriminate).
+    assert (Hnc : forall r, pc t <> TCollect r) by (rewrite Epc; intros; discriminate).
     destruct (tb_fail tb) as [h|] eqn:Eh; [destruct c|]; intro H; inversion H; subst t'; clear H.
-    + destruct (TI_submit tb t h (tb_cfail tb) true (fun _ => TSuccess true) W HI Hpc (in_hpairs_fail _ _ Eh))
-        as (R1 & Hc & Hrej & Hpar & Hsub & Hincl & Hreg & Hcase).
-      { simpl. right. apply in_or_app. right. rewrite Eh. left. reflexivity. }
-      split; try assumption.
-      * rewrite Hc. assumption.
-      * destruct Hcase as [(Ep & _)|(Ep & _)]; rewrite Ep; [assumption | exact I].
-      * destruct Hcase as [(Ep & _)|(Ep & Es & _)]; rewrite Ep; [exact I | rewrite Es; apply incl_refl].
-      * intros c' Hc'. rewrite Hc in Hc'. inversion Hc'; subst c'.
-        destruct Hcase as [(Ep & Hr & _)|(Ep & _ & Rj)]; [|left; assumption].
-        destruct (Hold true Hpc) as [R|P1]; [left; eapply rejected_any_mono; eauto|right].
+    + apply (TI_after_submit tb t h (tb_cfail tb) true (fun _ => TSuccess true) W HI Hpc (in_hpairs_fail _ _ Eh));
+        [ | exact Hnd | exact Hnc | intros l; reflexivity | ].
+      * simpl. right. apply in_or_app. right. rewrite Eh. left. reflexivity.
+      * intros t' Hreg Hr Ep. destruct (Hold true Hpc) as [R|P1]; [left; assumption|right].
         rewrite Ep. simpl. repeat split; intro Hs; try lia.
         -- eapply Pk_mono; eauto.
         -- intros h' Hh' _. rewrite Eh in Hh'. inversion Hh'; subst. assumption.
-    + split; simpl; try apply HI.
-      * assumption.
-      * exact I.
+    + apply TI_goto; auto.
       * intros c' Hc'. rewrite Hpc in Hc'. inversion Hc'; subst c'.
         destruct (Hold false Hpc) as [R|P1]; [left; assumption|right].
-        repeat split; intro Hs; try lia; [assumption|]. intros h' _ Hg. discriminate Hg.
-    + split; simpl; try apply HI.
-      * assumption.
-      * exact I.
+        simpl. repeat split; intro Hs; try lia; [assumption|]. intros h' _ Hg. discriminate Hg.
+      * intro E. rewrite (TI_nopend _ _ HI Hnd Hnc) in E. discriminate.
+    + apply TI_goto; auto.
       * intros c' Hc'. destruct (Hold c' Hc') as [R|P1]; [left; assumption|right].
-        repeat split; intro Hs; try lia; [assumption|]. intros h' Hh'. rewrite Eh in Hh'. discriminate Hh'.
+        simpl. repeat split; intro Hs; try lia; [assumption|]. intros h' Hh'. rewrite Eh in Hh'. discriminate Hh'.
+      * intro E. rewrite (TI_nopend _ _ HI Hnd Hnc) in E. discriminate.
   - (* TSuccess *)
     assert (Hold : forall c', catched t = Some c' ->
               rejected_any tb (rs t) \/ (Pk (tb_finally tb) true (rs t) /\ Pk (tb_fail tb) c' (rs t))).
     { intros c' Hc'. destruct (ti_prog _ _ HI c' Hc') as [R|(P1 & P2 & _)]; [auto|]. right.
       split; [apply P1 | apply P2]; rewrite Epc; simpl; lia. }
+    assert (Hnd : pc t <> TDone) by (rewrite Epc; discriminate).
+    assert (Hnc : forall r, pc t <> TCollect r) by (rewrite Epc; intros; discriminate).
     destruct (tb_success tb) as [h|] eqn:Eh; [destruct c|]; intro H; inversion H; subst t'; clear H.
-    + split; simpl; try apply HI.
-      * exact I.
-      * apply incl_refl.
+    + apply TI_goto; auto.
       * intros c' Hc'. rewrite Hpc in Hc'. inversion Hc'; subst c'.
         destruct (Hold true Hpc) as [R|[P1 P2]]; [left; assumption|right].
-        repeat split; intro Hs; try assumption. intros h' _ Hg. discriminate Hg.
-    + destruct (TI_submit tb t h (tb_csucc tb) false TCollect W HI Hpc (in_hpairs_succ _ _ Eh))
-        as (R1 & Hc & Hrej & Hpar & Hsub & Hincl & Hreg & Hcase).
-      { simpl. right. apply in_or_app. right. rewrite Eh. left. reflexivity. }
-      split; try assumption.
-      * rewrite Hc. assumption.
-      * destruct Hcase as [(Ep & _)|(Ep & _)]; rewrite Ep; exact I.
-      * destruct Hcase as [(Ep & _)|(Ep & Es & _)]; rewrite Ep; [apply incl_refl | rewrite Es; apply incl_refl].
-      * intros c' Hc'. rewrite Hc in Hc'. inversion Hc'; subst c'.
-        destruct Hcase as [(Ep & Hr & _)|(Ep & _ & Rj)]; [|left; assumption].
-        destruct (Hold false Hpc) as [R|[P1 P2]]; [left; eapply rejected_any_mono; eauto|right].
+        simpl. repeat split; intro Hs; try assumption. intros h' _ Hg. discriminate Hg.
+      * intro E. right. eauto.
+    + apply (TI_after_submit tb t h (tb_csucc tb) false TCollect W HI Hpc (in_hpairs_succ _ _ Eh));
+        [ | exact Hnd | exact Hnc | intros l; reflexivity | ].
+      * simpl. right. apply in_or_app. right. rewrite Eh. left. reflexivity.
+      * intros t' Hreg Hr Ep. destruct (Hold false Hpc) as [R|[P1 P2]]; [left; assumption|right].
         rewrite Ep. simpl. repeat split; intro Hs.
         -- eapply Pk_mono; eauto.
         -- eapply Pk_mono; eauto.
         -- intros h' Hh' _. rewrite Eh in Hh'. inversion Hh'; subst. assumption.
-    + split; simpl; try apply HI.
-      * exact I.
-      * apply incl_refl.
+    + apply TI_goto; auto.
       * intros c' Hc'. destruct (Hold c' Hc') as [R|[P1 P2]]; [left; assumption|right].
-        repeat split; intro Hs; try assumption. intros h' Hh'. rewrite Eh in Hh'. discriminate Hh'.
-  - (* TCollect [] *)
-    intro H; inversion H; subst t'; clear H. split; simpl; try apply HI.
-    + exact I.
-    + exact I.
-    + intros c' Hc'. destruct (ti_prog _ _ HI c' Hc') as [R|P]; [left; assumption|right].
-      rewrite Epc in P. exact P.
-  - (* TCollect (p :: rest) *)
-    destruct (find_task hn (tasks (rs t))) as [x|] eqn:Ex; [|intro HH; discriminate HH].
-    destruct (is_finished (t_st x)); [|intro HH; discriminate HH].
-    pose proof (ti_col _ _ HI) as Hcol. rewrite Epc in Hcol.
-    destruct (ctx_failed hc (rs t)) eqn:Ehc; intro H; inversion H; subst t'; clear H.
+        simpl. repeat split; intro Hs; try assumption. intros h' Hh'. rewrite Eh in Hh'. discriminate Hh'.
+      * intro E. right. eauto.
+  - (* TCollect [] : the one step that reports to the surrounding scope *)
+    pose proof (ti_col _ _ HI) as Hcol. rewrite Epc in Hcol. destruct Hcol as [_ Hall].
+    simpl early. simpl negb. rewrite andb_true_r.
+    assert (Hnp : ctx_failed (tb_par tb) (rs t) = false) by (apply (TI_healthy _ _ HI); rewrite Epc; discriminate).
+    destruct (pend t) eqn:Epd; intro H; inversion H; subst t'; clear H.
     + split; simpl.
       * apply RI_failpar. apply (ti_ri _ _ HI).
       * exact I.
-      * intros _. apply ctx_failed_fail_same.
-      * intros _. right. destruct (ti_subd _ _ HI hn hc) as [h0 (A & B & C)]; [apply Hcol; left; reflexivity|].
-        exists h0, hc. rewrite fail_ctx_tasks. split; [assumption|]. split; [rewrite <- B; assumption|].
-        apply ctx_failed_fail_mono. assumption.
-      * intros hn' hc' Hin. destruct (ti_subd _ _ HI _ _ Hin) as [h0 (A & B & C)]. exists h0. rewrite fail_ctx_tasks. auto.
-      * intros p Hp. apply Hcol. right. assumption.
+      * intros _. right. apply ctx_failed_fail_same.
+      * intros _. right. apply ctx_failed_fail_same.
+      * intros _. destruct (ti_pendsrc _ _ HI Epd) as [R|Hh].
+        -- left. destruct R as [h' [A B]]. exists h'. rewrite fail_ctx_log. auto.
+        -- right. destruct Hh as (h & c & A & B & C). exists h, c. rewrite fail_ctx_tasks.
+           split; [assumption|]. split; [assumption|]. apply ctx_failed_fail_mono. assumption.
+      * intros _. split; [reflexivity|]. destruct (ti_pendsrc _ _ HI Epd) as [R|Hh].
+        -- left. destruct R as [h' [A B]]. exists h'. rewrite fail_ctx_log. auto.
+        -- right. destruct Hh as (h & c & A & B & C). exists h, c. rewrite fail_ctx_tasks.
+           split; [assumption|]. split; [assumption|]. apply ctx_failed_fail_mono. assumption.
+      * intros hn hc Hin. destruct (ti_subd _ _ HI _ _ Hin) as [h0 (A & B & C)]. exists h0. rewrite fail_ctx_tasks. auto.
+      * intros h c Hh Hr. rewrite fail_ctx_tasks in Hr. apply (ti_regsub _ _ HI); assumption.
+      * intros p Hp. destruct (Hall p Hp) as [[]|(x & ok & A & B)]. exists x, ok. unfold T in *. rewrite fail_ctx_tasks. auto.
       * intros c' Hc'. destruct (ti_prog _ _ HI c' Hc') as [R|P].
         -- left. destruct R as [h' [A B]]. exists h'. rewrite fail_ctx_log. auto.
         -- right. rewrite Epc in P. unfold Pk in *. rewrite fail_ctx_tasks. exact P.
     + split; simpl; try apply HI.
       * exact I.
-      * intros p Hp. apply Hcol. right. assumption.
+      * congruence.
+      * intro R. destruct (ti_rej _ _ HI R) as [A|A]; [congruence | auto].
+      * congruence.
+      * intro E. congruence.
+      * intros p Hp. destruct (Hall p Hp) as [[]|X]. assumption.
       * intros c' Hc'. destruct (ti_prog _ _ HI c' Hc') as [R|P]; [left; assumption|right].
         rewrite Epc in P. exact P.
+  - (* TCollect (p :: rest) *)
+    destruct (find_task hn (tasks (rs t))) as [x|] eqn:Ex; [|intro HH; discriminate HH].
+    destruct (is_finished (t_st x)) eqn:Efin; [|intro HH; discriminate HH].
+    pose proof (ti_col _ _ HI) as Hcol. rewrite Epc in Hcol. destruct Hcol as [Hinc Hall].
+    simpl early. rewrite andb_false_r.
+    intro H; inversion H; subst t'; clear H.
+    split; simpl; try apply HI.
+    + exact I.
+    + intros _. left. eauto.
+    + intro R. destruct (ti_rej _ _ HI R) as [A|A]; [left; rewrite A; reflexivity | auto].
+    + intro E. apply orb_true_iff in E as [E|E]; [apply (ti_pendsrc _ _ HI E)|]. right.
+      destruct (ti_subd _ _ HI hn hc) as [h0 (A & B & C)]; [apply Hinc; left; reflexivity|].
+      exists h0, hc. split; [assumption|]. split; [rewrite <- B; assumption | assumption].
+    + intro E. destruct (ti_par _ _ HI E) as [A _]. congruence.
+    + split; [intros p Hp; apply Hinc; right; assumption|].
+      intros p Hp. destruct (Hall p Hp) as [[<-|A]|A]; auto.
+      right. simpl. destruct (t_st x) eqn:Est; try discriminate. exists x, ok. auto.
+    + intros c' Hc'. destruct (ti_prog _ _ HI c' Hc') as [R|P]; [left; assumption|right].
+      rewrite Epc in P. exact P.
   - intro HH; discriminate HH.
 Qed.
 
-Lemma TI_run tb tsched : wf tb -> TI tb (trun false tb tsched (tinit tb)).
+Lemma TI_run tb tsched : wf tb -> TI tb (trun MFixed tb tsched (tinit tb)).
 Proof.
   intro W.
-  assert (G : forall tsched t, TI tb t -> TI tb (trun false tb tsched t)).
+  assert (G : forall tsched t, TI tb t -> TI tb (trun MFixed tb tsched t)).
   { clear tsched. induction tsched as [|l r IH]; intros t HI; simpl; [assumption|].
-    apply IH. unfold tstep_skip. destruct (tstep false tb l t) as [t'|] eqn:E; [|assumption].
+    apply IH. unfold tstep_skip. destruct (tstep MFixed tb l t) as [t'|] eqn:E; [|assumption].
     destruct l as [n | n |]; unfold tstep in E.
     - destruct (step false (LTask n) (rs t)) as [s|] eqn:Es; [|discriminate]. inversion E; subst.
       apply TI_runner; auto. exists n. left. assumption.
@@ -863,11 +987,21 @@ Proof.
     simpl in *; rewrite E in *; tauto.
 Qed.
 
+Lemma mroot_run sched s : mroot (run false sched s) = mroot s.
+Proof.
+  revert s. induction sched as [|l r IH]; intros s; [reflexivity|].
+  change (run false (l :: r) s) with (run false r (step_skip false s l)). rewrite IH. unfold step_skip.
+  destruct (step false l s) as [s'|] eqn:E; [|reflexivity]. apply step_tr in E.
+  assert (P : forall x a b, tr x a b -> mroot b = mroot a).
+  { clear. intros x a b H. destruct H; simpl; rewrite ?fail_ctx_mroot; reflexivity. }
+  destruct E as [E|s1 E1 E2]; [eapply P; eauto | rewrite (P _ _ _ E2); eapply P; eauto].
+Qed.
+
 Section Reach.
 Variable tb : tryblock.
 Variable tsched : list tlabel.
 Hypothesis W : wf tb.
-Let t := trun false tb tsched (tinit tb).
+Let t := trun MFixed tb tsched (tinit tb).
 
 Lemma handler_begin_allowed h c ws :
   In (h, c) (hpairs tb) -> In (EBodyBegin (s_name h) ws) (log (rs t)) ->
@@ -995,7 +1129,7 @@ Lemma containment_only_if :
                 /\ In x (tasks (rs t)) /\ t_ctx x = c /\ t_st x = Finished false.
 Proof.
   intros Hfin Hp. pose proof (TI_run tb tsched W) as HI. fold t in HI.
-  destruct (ti_par _ _ HI Hp) as [R|(h & c & A & B & C)]; [left; assumption|right].
+  destruct (ti_par _ _ HI Hp) as [_ [R|(h & c & A & B & C)]]; [left; assumption|right].
   destruct (ri_culprit _ _ _ (ti_ri _ _ HI) c C) as [[x (X1 & X2 & X3)]|X].
   - exists h, c, x. repeat split; auto. destruct X3 as [X3|X3]; [|assumption].
     unfold tfinal in Hfin. destruct (pc t); try discriminate.
@@ -1003,8 +1137,43 @@ Proof.
   - exfalso. eapply (wf_hctx _ W); eauto.
 Qed.
 
-Lemma containment_rejected : rejected_any tb (rs t) -> ctx_failed (tb_par tb) (rs t) = true.
-Proof. pose proof (TI_run tb tsched W) as HI. fold t in HI. apply (ti_rej _ _ HI). Qed.
+Lemma containment_rejected :
+  tfinal t = true -> rejected_any tb (rs t) -> ctx_failed (tb_par tb) (rs t) = true.
+Proof.
+  intros Hfin R. pose proof (TI_run tb tsched W) as HI. fold t in HI.
+  unfold tfinal in Hfin. destruct (pc t) eqn:Epc; try discriminate.
+  destruct (ti_rej _ _ HI R) as [A|A]; [|assumption].
+  destruct (ti_pend _ _ HI A) as [[r B]|B]; [congruence | assumption].
+Qed.
+
+(** The surrounding context is failed by the try block only when the goroutine is done, and then
+    every started (registered) handler has finished. *)
+Lemma surrounding_fails_last :
+  ctx_failed (tb_par tb) (rs t) = true ->
+  pc t = TDone /\
+  forall h c, In (h, c) (hpairs tb) -> registered (s_name h) (tasks (rs t)) = true ->
+              exists x ok, find_task (s_name h) (tasks (rs t)) = Some x /\ t_st x = Finished ok.
+Proof.
+  intro Hp. pose proof (TI_run tb tsched W) as HI. fold t in HI.
+  destruct (ti_par _ _ HI Hp) as [Epc _]. split; [assumption|].
+  intros h c Hh Hr. pose proof (ti_regsub _ _ HI h c Hh Hr) as Hin.
+  pose proof (ti_col _ _ HI) as Hcol. rewrite Epc in Hcol. exact (Hcol _ Hin).
+Qed.
+
+(** Hence a submission made while some handler is still running is never refused because of the
+    surrounding context: the manager's root context is healthy. *)
+Lemma handler_running_root_healthy h c x :
+  In (h, c) (hpairs tb) -> find_task (s_name h) (tasks (rs t)) = Some x -> is_finished (t_st x) = false ->
+  ctx_failed (mroot (rs t)) (rs t) = false.
+Proof.
+  intros Hh Hx Hnf. pose proof (TI_run tb tsched W) as HI. fold t in HI.
+  assert (Em : mroot (rs t) = tb_par tb).
+  { destruct (ri_reach _ _ _ (ti_ri _ _ HI)) as [sched Es]. rewrite Es. rewrite mroot_run. reflexivity. }
+  rewrite Em. destruct (ctx_failed (tb_par tb) (rs t)) eqn:E; [|reflexivity]. exfalso.
+  destruct (surrounding_fails_last E) as [_ Hall].
+  destruct (Hall h c Hh) as (x' & ok & A & B); [apply registered_find; eauto|].
+  rewrite Hx in A. inversion A; subst. rewrite B in Hnf. discriminate.
+Qed.
 
 (** the body task and everything it spawns live in the separated context, the handlers and
     everything they spawn in their own contexts; no task runs in the surrounding context *)
@@ -1043,7 +1212,7 @@ Proof.
 Qed.
 
 Lemma handler_cancel_refuted :
-  let t := trun true cancel_tb cancel_sched (tinit cancel_tb) in
+  let t := trun MShared cancel_tb cancel_sched (tinit cancel_tb) in
   tfinal t = true
   /\ In (EBodyBegin 2%N []) (log (rs t))                 (* the finally task was started ... *)
   /\ (forall i, ~ In (ECmdBegin 2%N i) (log (rs t)))     (* ... but executed none of its two commands *)
@@ -1057,7 +1226,7 @@ Qed.
 
 (** The same schedule on the repaired model: the finally handler runs both commands. *)
 Lemma handler_cancel_fixed :
-  let t := trun false cancel_tb cancel_sched (tinit cancel_tb) in
+  let t := trun MFixed cancel_tb cancel_sched (tinit cancel_tb) in
   tfinal t = true
   /\ In (ECmdEnd 2%N 1 true) (log (rs t))
   /\ map (fun x => (t_name x, t_st x)) (tasks (rs t))
@@ -1065,4 +1234,56 @@ Lemma handler_cancel_fixed :
   /\ ctx_failed 1%N (rs t) = true.
 Proof.
   vm_compute. repeat split; try reflexivity. repeat (first [left; reflexivity | right]).
+Qed.
+
+(** * 3f81e38: with the errors reported early (b825941, mode [MEarly]) a failing finally handler makes
+    the still-running success handler's nested submission be refused *)
+
+Definition early_tb : tryblock :=
+  {| tb_body := {| s_name := 1%N; s_waits := []; s_body := [COk] |};
+     tb_finally := Some {| s_name := 2%N; s_waits := []; s_body := [CFail] |};
+     tb_fail := None;
+     tb_success := Some {| s_name := 3%N; s_waits := []; s_body := [COk; CSpawn 4%N [] [COk]; COk] |};
+     tb_sep := 50%N; tb_par := 1%N; tb_cfin := 51%N; tb_cfail := 52%N; tb_csucc := 53%N |}.
+
+Definition early_sched : list tlabel :=
+  [TLTry] ++ repeat (TLTask 1%N) 5 ++ [TLTry; TLTry; TLTry; TLTry]
+  ++ repeat (TLTask 3%N) 3            (* success: body begins, first command runs *)
+  ++ repeat (TLTask 2%N) 4            (* finally: fails and finishes *)
+  ++ [TLTry]                          (* the goroutine waits for finally's scope (and, early mode, reports) *)
+  ++ repeat (TLTask 3%N) 6            (* success: pip:run ... *)
+  ++ repeat (TLTask 4%N) 6 ++ repeat (TLTask 3%N) 6 ++ [TLTry; TLTry; TLTry].
+
+Lemma early_wf : wf early_tb.
+Proof.
+  split.
+  - vm_compute. repeat constructor; simpl; intuition discriminate.
+  - vm_compute. intros x [<-|[<-|[<-|[]]]] [H|[]]; discriminate H.
+  - vm_compute. intros h [<-|[<-|[]]]; reflexivity.
+  - vm_compute. intros h c [E|[E|[]]]; inversion E; discriminate.
+  - vm_compute. discriminate.
+Qed.
+
+Lemma early_report_refuted :
+  let t := trun MEarly early_tb early_sched (tinit early_tb) in
+  tfinal t = true
+  /\ In (ESubmitted 4%N false) (log (rs t))          (* the success handler's pip:run was refused *)
+  /\ ~ In (ECmdBegin 3%N 2) (log (rs t))             (* and its last command never ran *)
+  /\ map (fun x => (t_name x, t_st x)) (tasks (rs t))
+     = [(1%N, Finished true); (2%N, Finished false); (3%N, Finished false)].
+Proof.
+  vm_compute. repeat split; try reflexivity.
+  - repeat (first [left; reflexivity | right]).
+  - intro H. repeat (destruct H as [H|H]; [discriminate|]). exact H.
+Qed.
+
+Lemma early_report_fixed :
+  let t := trun MFixed early_tb early_sched (tinit early_tb) in
+  tfinal t = true
+  /\ In (ESubmitted 4%N true) (log (rs t)) /\ In (ECmdEnd 3%N 2 true) (log (rs t))
+  /\ map (fun x => (t_name x, t_st x)) (tasks (rs t))
+     = [(1%N, Finished true); (2%N, Finished false); (3%N, Finished true); (4%N, Finished true)]
+  /\ ctx_failed 1%N (rs t) = true.
+Proof.
+  vm_compute. repeat split; try reflexivity; repeat (first [left; reflexivity | right]).
 Qed.
